@@ -694,6 +694,7 @@ func TestC14(t *testing.T) {
 			}
 		}
 	})
+	hx.Each(s, c14Misplaced, true, c14MisplacedCases)
 	hx.Run(s, c14Mutate, s.N(6000, 60000))
 	hx.Run(s, c14Soup, s.N(4000, 40000))
 }
